@@ -9,7 +9,7 @@ use ezpz_verif_harness::oracle::*;
 use ezpz_verif_harness::planted::*;
 use ezpz_verif_harness::rng::Rng;
 use kcl_ezpz::datatypes::{Angle, AngleKind};
-use kcl_ezpz::verif_hooks as vh;
+
 use kcl_ezpz::*;
 use std::f64::consts::PI;
 
@@ -91,8 +91,10 @@ fn main() {
                     listed += 1;
                 }
                 let g = geom_err(c, x, scale);
-                let flagged = vh::residual(c, x).1;
-                if g.degenerate || flagged || g.errs.iter().any(|e| !e.is_finite()) {
+                // exemption by the independent specification only (documented guard bands), never by the
+                // implementation's own degenerate flag: a request wrongly flagged degenerate must not hide
+                let guarded = ezpz_verif_harness::geom::in_guard_band(c, x);
+                if g.degenerate || guarded || g.errs.iter().any(|e| !e.is_finite()) {
                     exempt += 1;
                     continue;
                 }
